@@ -61,6 +61,12 @@ class Lib:
         self._fn[name] = f
         return f
 
+    @property
+    def fillbyte(self):
+        """the fill pattern as one octet (0x5A when buffers are left unfilled for memcheck)"""
+        f = self.fill
+        return f if isinstance(f, int) and 0 <= f <= 255 else 0x5A
+
     def has(self, name):
         try:
             getattr(self.dll, name)
